@@ -321,7 +321,14 @@ func (c *DaisyChainConnection) background(ctx context.Context) {
 
 		case msg := <-c.fromLeft:
 			if h == nil {
-				// No handler. Can we propagate the message rightwards?
+				if !disconnected {
+					// Still connected but no handler installed:
+					// nothing accepted the message, so it must not be relayed.
+					continue
+				}
+
+				// Disconnected, acting as a plain wire.
+				// Can we propagate the message rightwards?
 				if toRight == nil {
 					continue
 				}
@@ -347,7 +354,14 @@ func (c *DaisyChainConnection) background(ctx context.Context) {
 
 		case msg := <-fromRight:
 			if h == nil {
-				// No handler. Can we propagate the message leftwards?
+				if !disconnected {
+					// Still connected but no handler installed:
+					// nothing accepted the message, so it must not be relayed.
+					continue
+				}
+
+				// Disconnected, acting as a plain wire.
+				// Can we propagate the message leftwards?
 				if c.toLeft == nil {
 					continue
 				}
